@@ -18,7 +18,9 @@ META = {
               "LAPACK, floats lifted exactly; interpolation obligations carry tolerance 1e-7*(1+|.|)"],
     "assumptions": ["floats are modelled as exact reals", "operands satisfy their class invariant",
                     "PWA triangles non-degenerate (|area| >= 0.05)"],
-    "not_covered": ["TPS with symbolic kernel centres (log of symbolic distances inside a 6x6 SVD)", "n_dims > 3"],
+    "not_covered": ["TPS with symbolic kernel centres (log of symbolic distances inside a 6x6 SVD)", "n_dims > 3",
+                    "inexact AlignmentAffine fits in 3-D (align_inexact: 2-D only for that class; the symbolic 4x4 inverse "
+                    "takes 23 minutes of polynomial arithmetic)"],
     "trusted": ["class-honesty predicates", "barycentric oracle in the harness"],
 }
 
@@ -44,6 +46,8 @@ def instances(tier):
     # alignment's target differs from transform(source) and an exchange of ends is observable by value)
     for k in ("AlignmentAffine", "AlignmentTranslation", "AlignmentUniformScale"):
         for n in dims:
+            if k == "AlignmentAffine" and n == 3:
+                continue  # 23 minutes of polynomial arithmetic (inverse of a symbolic 4x4 fit): 2-D only
             out.append(("align_inexact", {"kind": k, "n": n}))
     out.append(("pwa", {"sym": "target", "tris": 1, "symv": [0, 1, 2]}))
     for sym_side in ("target", "source"):
